@@ -146,6 +146,9 @@ def build_op(spec, env):
     if cls == "Downsample":
         return L.Downsample(ish, p["factors"], shift=p.get("shift"))
     if cls == "Slice":
+        if p.get("bare"):
+            a_, b_, c_ = p["idx"][0]
+            return L.Slice(ish, slice(a_, b_, c_))
         return L.Slice(ish, tuple(slice(a, b, c) for a, b, c in p["idx"]))
     if cls == "Sum":
         return L.Sum(ish, p["axes"])
@@ -196,7 +199,7 @@ def build_prox(spec, env):
     if c == "L1Reg":
         return P.L1Reg(sh, spec["lamda"])
     if c == "L2Reg":
-        y = A(spec["y"]) if spec.get("y") else None
+        y = A(spec["y"]) if spec.get("y") else spec.get("y_scalar")
         ph = build_prox(spec["proxh"], env) if spec.get("proxh") else None
         return P.L2Reg(sh, spec["lamda"], y=y, proxh=ph)
     if c == "L2Proj":
@@ -206,6 +209,12 @@ def build_prox(spec, env):
     if c == "L1Proj":
         return P.L1Proj(sh, spec["epsilon"])
     if c == "BoxConstraint":
+        if spec.get("lower_arr"):
+            lo_ = np.real(A(spec["lower_arr"]))
+            hi_ = lo_ + spec["width"]
+            env.ledger.own("param%d" % env.nparams, hi_)
+            env.nparams += 1
+            return P.BoxConstraint(sh, lo_, hi_)
         return P.BoxConstraint(sh, spec["lower"], spec["upper"])
     if c == "NoOp":
         return P.NoOp(sh)
